@@ -96,8 +96,8 @@ class Ctx:
 
     def suite(self, name):
         if name not in self._suites:
-            if name.startswith('rel:'):
-                f = facts.load(os.path.join(self.dir, 'rel'), 'm-' + name[4:])
+            if name.startswith(('rel:', 'min:')):
+                f = facts.load(os.path.join(self.dir, name[:3]), 'm-' + name[4:])
                 f = dict(f)
                 f['suite'] = name
                 self._suites[name] = interp.Suite(f)
